@@ -75,11 +75,30 @@ INVALID = [
     ("address-of-view-element-holder", "fn fill(p: &[]{t})\n{{\n\tp[0] = 1;\n}}\nfn g(x: []{t})\n{{\n\tfill(&x);\n}}\nfn main() -> u8\n{{\n\tvar a: [2]{t} = [1, 2];\n\tg(a);\n\treturn: 0\n}}\n", None),
 ]
 
+# the address of something read-only (a member of a structure view, of an element of a view of structures, of a value
+# parameter, of a constant) handed to a function that writes through it, wherever that call stands: in the index of a
+# reference that is only read, inside a cast, a length, a literal, a condition ...  (code None: any rejection).
+# `poke` returns 0 so that the call can stand for an index.
+_ADDR_PRE = ("struct S\n{{\n\tx: {t},\n\tarr: [2]{t},\n}}\nconst K: {t} = 1;\nfn poke(p: &{t}) -> usize\n{{\n\tp = 9;\n\treturn: 0\n}}\nfn id(i: usize) -> usize\n{{\n\treturn: i\n}}\n")
+_ADDR_TARGETS = [("struct-view-member", "s: S", "&s.x"), ("slice-of-structs-member", "a: []S", "&a[1].x"), ("value-parameter", "v: {t}", "&v"), ("constant", "v: {t}", "&K"),
+                 ("struct-view-member-element", "s: S", "&s.arr[1]"), ("slice-of-structs-member-element", "a: []S", "&a[0].arr[1]")]
+_ADDR_CTX = [("statement", "\tvar r = poke({a});\n"), ("index-of-read", "\tvar r = table[poke({a})];\n"), ("index-of-written", "\ttable[poke({a})] = 0;\n"), ("index-of-length", "\tvar r = |rows[poke({a})]|;\n"),
+             ("cast", "\tvar r = poke({a}) as u64;\n"), ("argument", "\tvar r = id(poke({a}));\n"), ("binary", "\tvar r = 1 + poke({a});\n"), ("array-literal", "\tvar r = [poke({a}), 1];\n"),
+             ("condition", "\tif poke({a}) == 0\n\t{{\n\t\ttable[0] = 1;\n\t}}\n"), ("nested-index", "\tvar r = table[id(table[poke({a})] as usize)];\n"), ("paren", "\tvar r = (poke({a}));\n"),
+             ("index-in-argument", "\tvar r = id(table[poke({a})] as usize);\n")]
+for _tn, _par, _addr in _ADDR_TARGETS:
+    for _cn, _ctx in _ADDR_CTX:
+        INVALID.append(("address-of-%s-in-%s" % (_tn, _cn),
+                        _ADDR_PRE + "fn g(" + _par + ")\n{{\n\tvar table: [2]i32 = [10, 20];\n\tvar rows: [2][3]i32;\n" + _ctx.replace("{a}", _addr) + "}}\nfn main() -> u8\n{{\n\treturn: 0\n}}\n", None))
 VALID = [
     ("write-through-pointer", "fn bump(q: &{t})\n{{\n\tq = q + 1;\n}}\nfn main() -> u8\n{{\n\tvar v: {t} = 1;\n\tbump(&v);\n\tprint!(v, \"\\n\");\n\treturn: 0\n}}\n", "2\n"),
     ("write-through-slice-pointer", "fn fill(p: &[]{t})\n{{\n\tp[1] = 9;\n}}\nfn main() -> u8\n{{\n\tvar a: [2]{t} = [1, 2];\n\tfill(&a);\n\tprint!(a[0], a[1], \"\\n\");\n\treturn: 0\n}}\n", "19\n"),
     ("view-does-not-change-caller", "fn look(x: []{t}) -> {t}\n{{\n\treturn: x[0]\n}}\nfn main() -> u8\n{{\n\tvar a: [2]{t} = [1, 2];\n\tvar r: {t} = look(a);\n\tprint!(a[0], a[1], r, \"\\n\");\n\treturn: 0\n}}\n", "121\n"),
     ("value-does-not-change-caller", "fn twice(a: {t}) -> {t}\n{{\n\tvar b: {t} = a;\n\tb = b + b;\n\treturn: b\n}}\nfn main() -> u8\n{{\n\tvar v: {t} = 3;\n\tvar r: {t} = twice(v);\n\tprint!(v, r, \"\\n\");\n\treturn: 0\n}}\n", "36\n"),
+    # "a call can change a variable of its caller only if the caller wrote `&` on that argument": a pointer stored INSIDE
+    # a structure or an array that is passed as a view (listed finding D74; Props/C08.v C08_pointer_inside_view_refuted)
+    ("pointer-inside-struct-view", "struct Holder\n{{\n\tp: &{t},\n}}\nfn poke(h: Holder)\n{{\n\th.p = 5;\n}}\nfn main() -> u8\n{{\n\tvar x: {t} = 1;\n\tvar h = Holder {{ p: &x }};\n\tpoke(h);\n\tprint!(x, \"\\n\");\n\treturn: 0\n}}\n", "1\n"),
+    ("pointer-inside-array-view", "fn poke(v: []&{t})\n{{\n\tv[0] = 5;\n}}\nfn main() -> u8\n{{\n\tvar x: {t} = 1;\n\tvar ps: [1]&{t} = [&x];\n\tpoke(ps);\n\tprint!(x, \"\\n\");\n\treturn: 0\n}}\n", "1\n"),
     ("pointer-to-pointer", "fn retarget(pp: &&{t}, other: &{t})\n{{\n\t&pp = &other;\n\tpp = 7;\n}}\nfn main() -> u8\n{{\n\tvar a: {t} = 1;\n\tvar b: {t} = 2;\n\tvar p: &{t} = &a;\n\tretarget(&&p, &b);\n\tprint!(a, b, \"\\n\");\n\treturn: 0\n}}\n", None),
 ]
 
